@@ -8,9 +8,9 @@ CHECKS = {
  "C03": ("for every term and every input of the fixed pool X0, all wire renderings in all text carriers and every single (thorough: double) corruption of the wire forms, unmarshal raises or returns a value accepted by an independent structural conformance checker", "§6 C03"),
  "C04": ("scalar text / numeric wire forms: Python's own printers as oracle over boundary alphabets and complete sweeps of single dimensions (all dates, all minute offsets, all seconds of day), independent ISO-8601 duration reader, epoch readings under four time zones, cache-warming twins", "§6 C04"),
  "C05": ("compositional oracle: every composite is rebuilt from member values converted by independently obtained member routines; adversarial naming programs (shared field names, same-named classes in two modules, diamonds, chains), all documented source shapes (mapping, pairs, iterator, set of pairs, foreign object, same-class instance with raw members, literal text), exception parity", "§6 C05"),
- "C06": ("closure of marshal output over exact builtin classes, json.dumps acceptance, determinism, freshness (identity-disjoint containers), input unchanged, Literal non-members rejected; every term x every value plus subclass-instance variants", "§6 C06"),
- "C07": ("every cyclic class topology over <=2 (thorough 3) classes x edge kinds x module styles x root forms x depths 0..12 (thorough ..50): plus links through NewType / value alias / PEP 604 mixed unions, classes hinted only by __init__, 23 recursive-alias programs (alias as root, below the root, as class field): build terminates, every level converted (level-dependent payloads compared with the value built directly), root instances with raw members, round trip, codec, both build orders", "§6 C07"),
- "C08": ("reference union computed from independently built member routines in declared order (None first wherever declared; members that themselves admit None) for every ordered member tuple of length 2-3 (thorough 4) over a 12-type pool, all None positions and spellings x the whole input pool, both directions", "§6 C08"),
+ "C06": ("closure of marshal output over exact builtin classes, json.dumps acceptance, determinism, freshness (identity-disjoint containers), input unchanged, Literal non-members rejected; every term x every value plus subclass-instance variants, plus unsubscripted container targets (freshness down to the typed depth); a raise on a valid value is reported", "§6 C06"),
+ "C07": ("every cyclic class topology over <=2 (thorough 3) classes x edge kinds x module styles x root forms x depths 0..12 (thorough ..50): plus links through NewType / value alias / PEP 604 mixed unions, classes hinted only by __init__, dataclasses defining __call__, 23 recursive-alias programs (alias as root, below the root, as class field): build terminates, every level converted (level-dependent payloads compared with the value built directly), root instances with raw members, round trip, codec, both build orders", "§6 C07"),
+ "C08": ("reference union computed from independently built member routines in declared order (None first wherever declared; members that themselves admit None) for every ordered member tuple of length 2-3 (thorough 4) over a 12-type pool plus pairs/triples with bool and bytes members (members related by inheritance, rejection by UnicodeDecodeError), all None positions and spellings x the whole input pool, both directions", "§6 C08"),
  "C09": ("invariants I1-I11 of graph.static_order (termination, no duplicates, root last, members first against an independent member function, deferred nodes flagged/revisits/denote exactly, input forms agree, memo not corruptible) on every term, every cyclic and sharing topology, nested and same-named classes", "§6 C09"),
  "C10": ("every signature shape of <=5 (thorough 6) parameters over the 5 kinds x annotation masks x default patterns x every call shape accepted by Python plus single-mistake rejected calls, distinguishable per-parameter annotations; oracle inspect.Signature.bind + public unmarshal; function/method/callable-instance/class flavours, bind and wrap, warm second call; special programs: textually identical string-annotated signatures in two modules (both load orders), callables whose first parameter is an annotated *args", "§6 C10"),
  "C11": ("behavioural equivalence of wrapped and unwrapped programs for every wrapper chain (NewType, value alias, string alias, Final, ClassVar, string reference, ForwardRef) of length <=2 (thorough 3) at root, collection argument, mapping value, tuple member, union member and class field, from every reference origin; special programs for references through helper modules, qualifiers behind text, dotted composite alias texts, Final on plain-class fields", "§6 C11"),
@@ -18,7 +18,7 @@ CHECKS = {
  "C13": ("pass-through of every valid value of every union-free/Optional-only term, and idempotence unmarshal(T, unmarshal(T, x)) over the fixed input pool and all wire renderings", "§6 C13"),
  "C14": ("five text carriers give pairwise-same results or all reject, for every term x wire texts / look-alikes / malformed JSON / control and non-ASCII strings; JSON and Python-literal text of wire values equivalent to the decoded value; serdes.load/strload/decode against json.loads incl. whitespace-framed / indented JSON, results changed in place never leak into a later load; str/int subclasses as target types", "§6 C14"),
  "C15": ("every annotation of the extended grammar (Any, object, bare generics, TypeVars, Callable, type[X], user generics, hint-less classes) to depth 2 (thorough: complete depth 2 + depth-3 spines): routines and codec construct within the wall limit, unresolvable positions pass an opaque sentinel through while siblings are converted, rebuilding (again, after forgetting only the built routines, after clearing every cache) agrees", "§6 C15"),
- "C16": ("explicit-state BFS on the real TypeContext against a plain-dict reference model: complete reachable state space (fixpoint) for 2 base types x 6 key forms, depth-bounded for 3 bases, fixpoints for falsy stored values and for wrappers of wrappers (10 key forms); every lookup of every key compared in every state, lookups never change later lookups", "§6 C16"),
+ "C16": ("explicit-state BFS on the real TypeContext against a plain-dict reference model: complete reachable state space (fixpoint) for 2 base types x 6 key forms, depth-bounded for 3 bases, fixpoints for falsy stored values and for wrappers of wrappers (10 key forms), all insertion orders of <=3 of 9 keys built on function-local classes; every lookup of every key compared in every state, lookups never change later lookups", "§6 C16"),
  "C17": ("every public predicate/accessor of py/inspection x every catalogue entry of its declared domain against Python's own answers (issubclass vs ABCs, typing.get_origin/get_args, dataclasses/typing/inspect helpers) with admissible-answer sets, no-raise, spelling independence, stability, origin() instantiable, wrapper chains to depth 3, reordered-twin evaluation", "§6 C17, Appendix A"),
  "C18": ("serdes.iteritems/itervalues against a reference iteration model over every mapping kind, every structured flavour (private/ClassVar fields, slots-only, vars-only, named tuples with 2-length first fields, two-level hierarchies of every flavour), containers of sizes 0-3 (thorough 4) over 10 element kinds, one-shot iterators; exactly-once multiset check, input unchanged, per-class strategy cache sequences", "§6 C18"),
  "C19": ("every dataclass spec (0-3, thorough 0-5 fields x default kinds x flags x base kinds x getstate x dict/weakref, ClassVar/InitVar pseudo-fields) loaded twice (plain / slotted) and compared on construction, repr, eq/order/hash tables, copy, deepcopy, pickle 2-5, slots, dict, weakref, frozen-ness; all decoration histories of length <=3 (thorough 4) incl. failing decorations over the module-global guard", "§6 C19"),
